@@ -88,7 +88,8 @@ def hostile_env(cargo=False):
     # names that the ambient-read monitor saw the code under test ask for during the first pass of this check (see ./check): hostile values
     try:
         for name in json.loads(os.environ.get("VP_EXTRA_HOSTILE_ENV", "[]")):
-            e[name] = os.path.join(d, "decoy") if any(t in name.upper() for t in ("DIR", "PATH", "HOME", "ROOT", "FILE")) else "https://vp-hostile.invalid/%s/" % name.lower()
+            e[name] = (os.path.join(d, ".gitconfig") if "CONFIG" in name.upper() else os.path.join(d, "decoy") if any(t in name.upper() for t in ("DIR", "PATH", "HOME", "ROOT", "FILE"))
+                       else "https://vp-hostile.invalid/%s/" % name.lower())
     except ValueError:
         pass
     if not cargo:
